@@ -10,6 +10,8 @@ from .. import codec, catalogue
 from ..core import Prop, Case, obs_exc
 
 SMALL, BIG = 100, 10000
+VIS_FORMS = ('look', 'lookall_head', 'repr', 'head', 'islice', 'str_look_pipe', 'see', 'see_pipe', 'slice', 'slice_step',
+             'values_slice_step', 'records_slice_step', 'item')
 EXTRACT_FORMS = ('csv', 'tsv', 'pickle', 'text', 'jsonl', 'csv:header', 'csv:pipe', 'text:nostrip', 'text:strip', 'text:header')
 KS = (1, 2, 3, 4, 6)
 
@@ -154,7 +156,7 @@ class C02(Prop):
                 yield Case('lazy', ('extract', fmt, rng.randrange(1 << 20)))
         for nm in ('unpackdict', 'fromdicts', 'fromdicts:generator'):
             yield Case('lazy', ('sample', nm, rng.randrange(1 << 20)))
-        for what in ('look', 'lookall_head', 'repr', 'head', 'islice', 'str_look_pipe', 'see', 'see_pipe'):
+        for what in VIS_FORMS:
             yield Case('lazy', ('vis', what, rng.randrange(1 << 20)))
 
     def expand(self, case):
@@ -339,6 +341,22 @@ class C02(Prop):
             list(etl.head(pipe, 5))
         elif what == 'islice':
             list(itertools.islice(pipe, 5))
+        elif what == 'slice':
+            list(pipe[1:6])
+            lim = 7
+        elif what == 'slice_step':
+            list(pipe[1:8:2])
+            lim = 9
+        elif what == 'values_slice_step':
+            list(etl.values(pipe, 'k')[0:9:3])
+            lim = 10
+        elif what == 'records_slice_step':
+            list(etl.records(pipe)[2:7:2])
+            lim = 8
+        elif what == 'item':
+            pipe[3]
+            etl.values(pipe, 'v')[2]
+            lim = 8
         elif what == 'see':
             str(etl.see(src))
         elif what == 'see_pipe':
@@ -426,7 +444,7 @@ class C02(Prop):
             if a[0] == 'sample':
                 return a[1] in ('unpackdict', 'fromdicts', 'fromdicts:generator') and len(a) == 3 and isinstance(a[2], int)
             if a[0] == 'vis':
-                return a[1] in ('look', 'lookall_head', 'repr', 'head', 'islice', 'str_look_pipe', 'see', 'see_pipe') and len(a) == 3
+                return a[1] in VIS_FORMS and len(a) == 3
             return False
         except Exception:
             return False
